@@ -30,7 +30,10 @@ claim("C20",
       "look-up, store and removal compute hash, bucket index and bucket head by identical statements, and the entry count changes by "
       "exactly one on insert and on removal (V2); the heap's parent/child index macros are mutually inverse and the sift loops use "
       "them (V3); a B-tree node found by a search is not dereferenced after a restructuring call (V4, shared with C10); the And/Or "
-      "duals of the condition logic are the same code (V5). It does not decide that any container behaves as its model over "
+      "duals of the condition logic are the same code (V5); the B-tree rotations move, with the key at an end of a node, the branch at "
+      "the same end (n keys, n+1 branches: V6); the three merge loops over sorted literal vectors in dnf.c advance only the first "
+      "index in their less-than branch (V7); the cancelling rewrite of dnfOrMerge is restricted to single-literal disjuncts (V8 - a "
+      "known finding on the unchanged tree: the pinned unit test asserts the unsound result). It does not decide that any container behaves as its model over "
       "sequences of operations, nor the logical equivalence of normal forms: those are run-time quantities.",
       "Trusted: clang 14 front end; the macro bodies of priq.c are evaluated as integer arithmetic for i in 0..200.",
       "structural lints over the clang AST (custom LibTooling extractor + Python rules): expression-shape match, sibling token "
@@ -228,29 +231,29 @@ PENDING_REASON = "check designed in DESIGN.md but not yet built in this tree; no
 # rules added after the seeded rounds (DESIGN.md section 8)
 ADDED = {
  "C02": "Also (Q4) purity guards of the peephole rewrites decided by three-valued partial evaluation of the guard with the op fixed; "
-        "(Q5) the dead-variable usage state is monotone over the states its family can take. (Q6) available expressions: generation before kill; (Q7) the targets of a multiple assignment are walked with exactly foamArgc of the Values node (10 vector/count pairs in the optimizer). (Q8) variadic node constructors in the optimizer are given exactly the number of children they are told (rules/variadic.py).",
+        "(Q5) the dead-variable usage state is monotone over the states its family can take. (Q6) available expressions: generation before kill; (Q7) the targets of a multiple assignment are walked with exactly foamArgc of the Values node (10 vector/count pairs in the optimizer). (Q8) variadic node constructors in the optimizer are given exactly the number of children they are told (rules/variadic.py). (Q9) no comparison predicate is applied to two identical operands in the optimizer (rules/selfcompare.py, with a generated positive control).",
  "C03": "Also (T4) per builtin, interpreter case == C form computed from gc0Builtin's source (abstract walk of the generator for the fixed "
         "tag); (T5) no CCode fragment built by the generator is dropped; (T6) the state saved at a try block covers every interpreter "
-        "register a normal return restores. (T7) the C printer parenthesises as the C grammar requires and separates a prefix operator from a prefix operand; (T8) in gccReturn no exit avoids the foamProgUsesFluids test and the fluid side carries gc0PopFluid (CFG). (T9) the same count agreement for ccoNew/foamNew in the C generator and printer; (T10) the C printer writes a non-printable byte of a string constant as a three-digit octal escape of the unsigned byte. (T11) the same variant/tag agreement for the single-tag handlers of gccExpr, gccCmd and gccRef.",
+        "register a normal return restores. (T7) the C printer parenthesises as the C grammar requires and separates a prefix operator from a prefix operand; (T8) in gccReturn no exit avoids the foamProgUsesFluids test and the fluid side carries gc0PopFluid (CFG). (T9) the same count agreement for ccoNew/foamNew in the C generator and printer; (T10) the C printer writes a non-printable byte of a string constant as a three-digit octal escape of the unsigned byte. (T11) the same variant/tag agreement for the single-tag handlers of gccExpr, gccCmd and gccRef. (T12) a foreign runtime entry that the interpreter emulates through a separate copy of the routine (fiStrHash: strHash / localStrHash) has isomorphic copies, local types included.",
  "C04": "The C form is computed from the generator's source (rules/ccoeval.py), not read off by hand. Also (B5) the ring-algebra cells of "
         "the peephole table, forwarded from C02-Q1. (B6) every Bool-returning builtin yields a canonical 0/1 in all copies; (B7) no int-width shift by a variable count inside 64-bit arithmetic; (B8) the word add/multiply steps take the carry of every two-term sum.",
  "C05": "Also (W4 reduce) shape of foamSIntReduce (mask/width, one ShiftUp+Or per chunk, sign; other loop shapes are refused as analysis "
         "broken); (W7) the compact index form is decided on every index field of the node; (W8) the length that selects a node's format is "
-        "the length the encoder writes. (W9) s-expression string escapes; (W10) arReadNumber accepts a header number ended by NUL or blank and nothing else (partial evaluation over the CFG).",
+        "the length the encoder writes. (W9) s-expression string escapes; (W10) arReadNumber accepts a header number ended by NUL or blank and nothing else (partial evaluation over the CFG). (W11) a unit id that is set (restored from a saved unit, or -Wname) is returned unchanged by emitGetFileIdName: the -Wprefix text is not applied to it.",
  "C06": "Also (S4) condition folds start from the neutral element of their operator; (S5) known-condition context push/pop pairing and "
-        "then/else polarity. (S6) tfSatMap0 compares components with the inner mask; (S7) And/Or sibling handlers are isomorphic; (S8) a top-down handler whose node carries its own type assigns it only after comparing it with the context type (CFG must-pass-through; the Boolean family is read from ti_bup.c).",
+        "then/else polarity. (S6) tfSatMap0 compares components with the inner mask; (S7) And/Or sibling handlers are isomorphic; (S8) a top-down handler whose node carries its own type assigns it only after comparing it with the context type (CFG must-pass-through; the Boolean family is read from ti_bup.c). (S9) no comparison predicate is applied to two identical operands in the type checker and symbol table.",
  "C07": "Also (K3) a success exit reachable while compiling is guarded by the error count; (K5) unbalanced or unterminated conditional "
         "directives are diagnosed for every IfState (guard coverage by partial evaluation); (K6) cdr(cdr(x)) only under a condition "
-        "establishing cdr(x); (K7) in the form checker a variant member of an AbSyn node is read only where its tag is established. (K8) length-controlled copies into fixed arrays are clamped; (K9) radix-literal digits are compared with the radix; (K10) the macro-expansion cycle test and the push on the active stack use the same object, expansion only on the not-circular side, pushed implies popped. (K11) count agreement (and NULL termination) of every variadic node constructor call in the front end, FOAM generator and support units (about 2000 calls).",
+        "establishing cdr(x); (K7) in the form checker a variant member of an AbSyn node is read only where its tag is established. (K8) length-controlled copies into fixed arrays are clamped; (K9) radix-literal digits are compared with the radix; (K10) the macro-expansion cycle test and the push on the active stack use the same object, expansion only on the not-circular side, pushed implies popped. (K11) count agreement (and NULL termination) of every variadic node constructor call in the front end, FOAM generator and support units (about 2000 calls). (K12) a loop of the form checker that reports bad components is not left early without a report; (K13) the source line reader does not store a NUL byte in the line's C string.",
  "C08": "Also (D4) integer counters that are only ever incremented and never reset (state carried across the files of one invocation) "
-        "are either frozen with the reason they cannot reach an output, or a violation. (D5) every header field and index libPutHeader writes is assigned by libNewHeader.",
+        "are either frozen with the reason they cannot reach an output, or a violation. (D5) every header field and index libPutHeader writes is assigned by libNewHeader. D1 also re-confirms, for iteration sites accepted because the table's keys are integers, that every tblSetElt on that table stores an integer-class key; (D6) the invocation-wide unit id is set only by the command-line parser.",
  "C09": "Also (G4) the cells holding the sweep's free-piece index lie inside their pages (= C10 T-carve). (G5) storage freed through a global reference is not left referenced; (G6) the marker's tail-iteration test is not a comparison with the byte-granular scan bound. (G7) the Linux osMemMap bounds its entry cursor by the table's capacity and guards the look-back at the previous entry.",
  "C10": "Also (T-section) the page request for a new mixed section dominates the capacity formula of sectQmCount; (T-carve) bookkeeping "
         "cells cut from a page by stoAllocInner number floor(bytes/size). (T-btree) a searched B-tree node is not used after a restructuring call; (T-sweep) mark bits of the quanta starting at S are cleared under a test of the tag loaded from sect->info[S]. (T-width) a value asserted below a constant and kept in an integer field fits the field's type.",
  "C12": "Also (J7) no JavaCode fragment built by the generator is dropped. (J5b) single-return runtime methods stay single-return; (J8) operator precedence/associativity table against the Java grammar; (J9) the gj0BCall handlers hand the operands to the Java constructors in order (symbolic evaluation of their list manipulation, rules/listeval.py). (J10) count agreement of the variadic constructors in the Java generator; (J11) character constants that Java's grammar forbids between quotes (backslash, quote, CR, LF) are written as escapes. (J12) each single-tag handler of the Java generator's dispatcher reads only its own tag's variant member of the FOAM node.",
  "C13": "Also (U3) every step that passes the syntax gate reaches the binder, whose entry applies the pending roll-back. (U4) line continuation inside string literals; (U5) the undo predicate selects uses whose node has no meaning.",
  "C15": "Also (P5) messages grouped under one source excerpt are grouped by a key that identifies a physical line. (P4) every #line renumbering reaches the line table on every path; (P6) in inclFile no path from the state switch reaches inclError without restoring the includer's state.",
- "C16": "Also (M4) every comparison of the unit's statement total with -Csmax has the strictness of gc0OverSMax. (M5) names declared without static are unit-qualified in split mode; (M6) gc0TypeRequiresDecl answers true for every FOAM type whose C type the default argument promotions change (types read through a probe unit).",
+ "C16": "Also (M4) every comparison of the unit's statement total with -Csmax has the strictness of gc0OverSMax. (M5) names declared without static are unit-qualified in split mode; (M6) gc0TypeRequiresDecl answers true for every FOAM type whose C type the default argument promotions change (types read through a probe unit). (M7) file names of additional split files are built from the output file's directory and type.",
  "C17": "Also (R4) libChkHeader constrains name and offset of every entry in [start, numSect) (interval cover of its loops); (R5) no "
         "file-derived header field steers a loop or an unguarded index before libChkHeader. (R6) arSeek treats only position == size as end.",
  "C18": "Also (O3) the checked close evaluated as straight-line code for 'error indicator set' and 'only fclose fails' reaches the "
